@@ -89,6 +89,12 @@ Fixpoint reach (comps : list str) (q : option (str * str)) (t : el) (a : addr) :
     else []
   end.
 
+(* tags as the parser produces them for live elements: not empty; and without the path separator *)
+Fixpoint find_tags_ok (t : el) : bool :=
+  match t with
+  | El tag _ _ _ kids => negb (is_empty tag) && negb (mem_byte 47 tag) && forallb find_tags_ok kids
+  end.
+
 Definition reach_path (root cur : el) (a : addr) (path : str) (q : option (str * str)) : list addr :=
   let (rooted, p) := strip_root path in
   if rooted then reach (split_slash p) q root [] else reach (split_slash p) q cur a.
